@@ -507,3 +507,24 @@ for _p, _txt in (("C12", "; an end-to-end slice runs random flag subsets through
     PROPS[_p]["level_text"] += _txt
 PROPS["C12"]["tiers"]["quick"]["budget"] = 25
 PROPS["C12"]["tiers"]["thorough"]["budget"] = 120
+
+
+# round 11: workloads added after measuring which lines of each property's anchor files the quick tier reaches
+# (lib/coverage.py) and after the eleventh round of seeded changes; appended to what the level says is explored
+_ROUND11 = {
+    "C01": "; the filterer and the action handler replaced while events flow (at quiescence and inside a window): an event sent after a replacement returned is never judged by an older filterer, exactly-once holds across handler generations; volleys of six different OS signals sent back to back (one event per kind and volley)",
+    "C02": "; windows that never end by themselves (throttle Duration::MAX, or a day): nothing is handed over before the urgent event, which brings everything collected with it",
+    "C03": "; the same lines fed through add_globs (scoped and global) as further construction routes; additions after finish() leave every verdict as it was",
+    "C07": "; sync and async error handlers; Control::NextEnding sent through the public Job::control (normal priority)",
+    "C09": "; sync and async error handlers; Control::NextEnding sent through the public Job::control (normal priority)",
+    "C10": "; Control::NextEnding sent through the public Job::control travels at normal priority and is part of the bounded-exhaustive alphabet",
+    "C11": "; patterns given more than once, in particular P, !P, P (the later copy counts again), and the monotonicity law with a pattern that is already present",
+    "C12": "; a negated explicit --ignore pattern that re-includes a file matched by a built-in default pattern (passes under all 64 combinations)",
+    "C13": "; the watcher kind and the path set changing in one step with a path dropped, which then comes back",
+    "C15": "; injected watcher failures that name several paths (one runtime error per path) or only a path other than the watched one (still exactly one error)",
+    "C17": "; end to end also through --emit-events-to=file / stdio / json-file / json-stdio: what the command finds in WATCHEXEC_EVENTS_FILE or on its standard input lists every changed file as <kind>:<absolute path> (or as a JSON event per line)",
+    "C18": "; CLI: the shell and its options separated by runs of blanks or tabs, blanks around the whole --shell value, and no --shell at all with $SHELL naming the shell",
+    "C19": "; every raw 16-bit wait status (the conversion never panics; exited statuses keep their code and signalled ones their signal whatever the other bits are); numeric spellings outside the platform table (0, negative, 32..130, huge, +n, 0n) either fail to parse or give back the same number",
+}
+for _pid, _txt in _ROUND11.items():
+    PROPS[_pid]["level_text"] = PROPS[_pid]["level_text"] + _txt
